@@ -84,11 +84,13 @@ Log(op) == hist' = Append(hist, op)
 Step == nops < MaxOps /\ nops' = nops + 1
 \* pl: which of two piece lengths is requested (process-lifetime state of the hashers must not carry
 \* anything over from an operation with another piece length; the model itself has no such state)
-Create(t, v, pl) == /\ Step /\ TargetExists(t) /\ FreshListing(t) # {}
+\* route: library classes, the command line with explicit flags, or the command line reading a
+\* configuration file (the parser and its defaults are process-lifetime objects too)
+Create(t, v, pl, route) == /\ Step /\ TargetExists(t) /\ FreshListing(t) # {}
                 /\ last' = [op |-> "create", got |-> ToolCreate(t), want |-> FreshCreate(t)]
                 /\ memo' = Store(memo, t)
                 /\ metas' = metas \cup {t}
-                /\ Log([op |-> "create", target |-> t, version |-> v, plen |-> pl])
+                /\ Log([op |-> "create", target |-> t, version |-> v, plen |-> pl, route |-> route])
                 /\ UNCHANGED <<fs, gen>>
 Mutate(kind, f) ==
     /\ Step
@@ -110,7 +112,7 @@ Init == /\ fs \in [Files -> {Absent, 1}] /\ gen = [f \in Files |-> 0]
         /\ memo = [k \in {"r", "r/d", "r/a", "r/d/b", "r/d/c"} |-> NoEntry]
         /\ metas = {} /\ last = [op |-> "none", got |-> 0, want |-> 0] /\ nops = 0
         /\ hist = <<[op |-> "init", fs |-> fs]>>
-Next == \/ \E t \in Targets, v \in 1 .. 3, pl \in 1 .. 2 : Create(t, v, pl)
+Next == \/ \E t \in Targets, v \in 1 .. 3, pl \in 1 .. 2, rt \in {"lib", "cli", "clitracker", "cliconfig"} : Create(t, v, pl, rt)
         \/ \E k \in {"add", "delete", "grow", "shrink", "rewrite"}, f \in Files : Mutate(k, f)
         \/ \E k \in {"recheck", "rebuild", "magnet", "edit"}, t \in Targets : Use(k, t)
 Spec == Init /\ [][Next]_vars
